@@ -187,6 +187,61 @@ def soft_hold_typestate(P, R, rule):
     return n_sites
 
 
+def refs_discipline(P, R, rule):
+    """The per-service reference count keeps a service alive while any client awaits it: the counter
+    moves only by ++/--; every path that marks a service as awaited (`ref_mask |= bit`) takes a
+    reference since the previous mask update; every clear of an awaited bit is followed by exactly one
+    release before the function returns."""
+    n = 0
+    for f in sorted(P.fns.values(), key=lambda x: x.key):
+        touches = [s for s in f.stores() if s.ev['k'] == 'store' and outer_field(s.ev['lhs']) in ('refs', MASK)]
+        if not touches:
+            continue
+        for s in touches:
+            if outer_field(s.ev['lhs']) == 'refs':
+                n += 1
+                R.ob(rule, s.ev.get('op') in ('++', '--'), s, 'the service reference count moves by a relative step (found %s): an absolute store lets a service that clients still await be freed'
+                     % s.ev.get('op'), key='refs:%s' % s.ev.get('op'), nontrivial=False)
+        if not any(outer_field(s.ev['lhs']) == MASK for s in touches):
+            continue
+
+        def on_event(st, s):
+            taken, pend = st
+            ev = s.ev
+            if ev['k'] == 'store':
+                fld, op = outer_field(ev['lhs']), ev.get('op')
+                if fld == 'refs' and op == '++':
+                    return (min(taken + 1, 2), pend)
+                if fld == 'refs' and op == '--':
+                    return (taken, 'done' if pend == 'p' else pend)
+                if fld == MASK and op == '|=':
+                    return (0, pend)
+                if fld == MASK and op == '&=':
+                    return (taken, 'p')
+            return st
+        before, at_exit, sin, bout = f.forward((0, None), on_event, None)
+        for s in touches:
+            if outer_field(s.ev['lhs']) != MASK:
+                continue
+            n += 1
+            if s.ev.get('op') == '|=':
+                sts = before.get(s.key, set())
+                ok = bool(sts) and all(t >= 1 for t, p in sts)
+                if not ok:
+                    # or right after: every path onwards takes the reference before anything else can happen
+                    def takes(t):
+                        return t.ev['k'] == 'store' and outer_field(t.ev['lhs']) == 'refs' and t.ev.get('op') == '++'
+                    ok = f.path_avoiding(s, takes) is None
+                R.ob(rule, ok, s, 'a service marked as awaited holds a reference taken on the same path (so it cannot be freed under the client)', key='await->ref')
+            elif s.ev.get('op') == '&=':
+                def rel(t):
+                    return t.ev['k'] == 'store' and outer_field(t.ev['lhs']) == 'refs' and t.ev.get('op') == '--'
+                p = f.path_avoiding(s, rel)
+                R.ob(rule, p is None, s, 'a cleared awaited bit gives its reference back before the function returns', key='clear->unref')
+    R.floor(rule, 6, 'stores to the reference count and the awaiting mask')
+    return n
+
+
 # ---------------------------------------------------------------------------------------
 def _position_class(f, pos_bid, pos_idx, writers):
     """'before' if no writer can execute before the position, 'after' if every path to it
